@@ -151,6 +151,14 @@ Proof.
   - intros (e & He & <- & Hs & Hr). exists e. split; [reflexivity|]. apply filter_In. split; [exact He|].
     rewrite Hs, Hr. reflexivity.
 Qed.
+Theorem fsl_sound_spec snaps u :
+  In u (fix_stale_locks snaps []) ->
+  exists unknown running ents, In (unknown, running, ents) snaps /\
+    exists e, In e ents /\ e_uuid e = u /\ e_state e = Locked /\ rlook u running = None.
+Proof.
+  intros H. destruct (fsl_sound snaps [] u H) as [[]|(a & b & c & Hin & Hu)].
+  exists a, b, c. split; [exact Hin|]. apply stale_locks_spec. exact Hu.
+Qed.
 (* nothing is unlocked when every worker is already known at the first look *)
 Theorem fsl_all_known running ents rest : fix_stale_locks ((false, running, ents) :: rest) [] = [].
 Proof. reflexivity. Qed.
@@ -210,11 +218,18 @@ Proof.
     cbn [apply_fops fold_left]. apply (IH _ (H f Hf) fs); [cbn in Hlen; lia|exact Hall].
 Qed.
 
+(* the undisturbed run needs 4 rounds: lock, create and boot, start and complete, release *)
+Example round_example : converge_in cfgL quantumL 12 startL = Some 4%nat.
+Proof. vm_compute. reflexivity. Qed.
+
 Lemma sweep_ok3 : forallb (fun b => all_ext 3 12 (apply_fops cfgL quantumL b startL)) basesL = true.
 Proof. vm_compute. reflexivity. Qed.
 Definition baseL4 : list fop := [FSched; FSched; FProbe 1; FProbe 2; FSched; FLand true].
 Lemma sweep_ok4 : all_ext 4 12 (apply_fops cfgL quantumL baseL4 startL) = true.
 Proof. vm_compute. reflexivity. Qed.
+
+(* keep the unifier from evaluating the closed sweeps again *)
+Opaque all_ext converge_in rounds round apply_fop.
 
 (* C15 (partial, bounded): from each of the four base states (nothing started; both containers locked;
    two instances booted and both containers being started; both crunch-run processes alive), after ANY
@@ -240,6 +255,3 @@ Proof.
   intros fs Hlen Hall. unfold apply_fops. rewrite fold_left_app. apply (all_ext_sound 4 12 _ sweep_ok4 fs Hlen Hall).
 Qed.
 
-(* the undisturbed run needs 4 rounds: lock, create and boot, start and complete, release *)
-Example round_example : converge_in cfgL quantumL 12 startL = Some 4%nat.
-Proof. vm_compute. reflexivity. Qed.
